@@ -510,6 +510,10 @@ class The(ResultQuantifier[T]):
 
     def evaluate(self) -> TypingUnion[Iterable[T], T, UnificationDict]:
         try:
+            # like An, start from a clean state also when an earlier result iterator over the same expressions is still
+            # open (given up, but neither closed nor collected yet).
+            self._reset_cache_()
+            self._forget_memoised_required_variables_()
             # like An, evaluate concretely even when called inside a symbolic_mode/rule_mode block.
             with symbolic_mode(mode=None):
                 result = self._evaluate_()
@@ -563,8 +567,10 @@ class An(ResultQuantifier[T]):
     def evaluate(self) -> Iterable[TypingUnion[T, Dict[TypingUnion[T, SymbolicExpression[T]], T]]]:
         try:
             # an earlier result iterator of this query may still be open (given up, but neither closed nor collected
-            # yet): this evaluation does not start from the duplicate tracking state that one left behind.
+            # yet): this evaluation does not start from the duplicate tracking state that one left behind, nor from what
+            # was memoised for it.
             self._reset_cache_()
+            self._forget_memoised_required_variables_()
             results = iter(self._evaluate__())
             while True:
                 # Symbolic mode is switched off only while a result is being computed, never while this generator
